@@ -24,7 +24,8 @@ MANIFEST = {
             'never change an existing entry. Every peer-file write is re-executed with a process crash at every durable '
             'boundary (file = complete old or new list, <= 100 entries, most recent first).'
             " The node's own address appears in its peer book / peer exchange (must not be attempted again once detected), some hosts never answer (attempt ends by timeout), one address may be listed under two keys."
-            " The node's own address may sit behind a port forward (dialled port differs from the listening port).",
+            " The node's own address may sit behind a port forward (dialled port differs from the listening port)."
+            ' The peer-file sweep also starts from a damaged file on disk (torn, empty, garbage - what an earlier session may leave behind): recording a greeted peer replaces it.',
     'note': 'Trusted: RefBackoff model in this file, SimFS crash model, simulated network; greetings are observed at the '
             'node\'s greeting handler (an observation wrapper installed by the harness at run time, not a repo hook).',
 }
@@ -470,7 +471,7 @@ def describe():
                        'stub': ['simulated TCP/selector/clock', 'addresses are Bots', 'SimFS for peers.json']},
         'assumptions': ['back-off reference resets at a restart (the node forgets failure counts)',
                         'a slow node (steps every minutes) is used for the multi-week runs'],
-        'expected_probes': ['outgoing_attempts', 'incoming_connections', 'remote_closes', 'fault:restart', 'fault:clock_jump_backward',
+        'expected_probes': ['fault:damaged_peer_file_on_disk', 'outgoing_attempts', 'incoming_connections', 'remote_closes', 'fault:restart', 'fault:clock_jump_backward',
                             'peer_file_writes_swept', 'fault:crash_in_peer_file_write', 'probe:backoff_reached_cap',
                             'probe:self_connection_detected', 'fault:connect_timeout', 'connect_refused', 'duplicate_key_connections'],
     }
